@@ -1,5 +1,6 @@
 pub mod alloc;
 pub mod alpha;
+pub mod borrowcheck;
 pub mod c14;
 pub mod chain;
 pub mod elem;
